@@ -26,7 +26,9 @@ type c03Case struct {
 	X uint8   `json:"x"`
 }
 
-func c03Safe(a uint16) bool { return a >= 0xc800 && a < 0xdffc || a >= 0xe800 && a < 0xfdf0 || a >= 0xff80 && a < 0xfff0 }
+func c03Safe(a uint16) bool {
+	return a >= 0xc800 && a < 0xdffc || a >= 0xe800 && a < 0xfdf0 || a >= 0xff80 && a < 0xfff0
+}
 
 // c03Run returns the access list it validated.
 func c03Run(rg *cpuRig, cc *c03Case) (nReads, nWrites int, sig string, err error) {
